@@ -17,6 +17,7 @@ CONSTANTS Classes,        \* class names explored by this config
           Acts,           \* enabled action groups
           MaxObj,         \* object slots
           Deviations,     \* named deviations of the code from the Ref that are switched on
+          ExtraPix,       \* additional pixel-position tokens (tolerance probes far from / at the origin), used by the C16 configs
           MaxDepth
 
 NoObj == [cls |-> "none"]
@@ -26,7 +27,7 @@ Empty == <<>>                    \* empty function (dict contents are functions 
 ValidTok(kind) ==
   CASE kind = "pos" -> {"f1_5", "i3", "npf2_5", "f4"}
     [] kind = "posn" -> {"i3", "f4", "i5"}
-    [] kind = "pix" -> {"pA", "pB", "pAc", "pAf"}
+    [] kind = "pix" -> {"pA", "pB", "pAc", "pAf"} \cup ExtraPix
     [] kind = "pix1d" -> {"parr3", "parr4"}
     [] kind = "sky" -> {"sA", "sB"}
     [] kind = "sky1d" -> {"sarr3", "sarr4"}
@@ -43,8 +44,8 @@ InvalidTok(kind) ==
     [] kind = "pix1d" -> {"pA", "p2d", "sarr3", "list", "none"}
     [] kind = "sky" -> {"sarr3", "pA", "tuple", "none", "q2deg"}
     [] kind = "sky1d" -> {"sA", "s2d", "parr3", "none"}
-    [] kind = "ang" -> {"f1_5", "qpix", "qm", "aarr", "str", "none"}
-    [] kind = "posang" -> {"a0", "aneg", "qinf", "qnan", "f1_5", "qpix", "qm", "aarr", "none", "str"}
+    [] kind = "ang" -> {"f1_5", "qpix", "qm", "qdimless", "aarr", "str", "none"}
+    [] kind = "posang" -> {"a0", "aneg", "qinf", "qnan", "f1_5", "qpix", "qm", "qdimless", "qpercent", "aarr", "none", "str"}
     [] kind = "regpix" -> {"regS1", "str", "none"}
     [] kind = "regsky" -> {"regP1", "str", "none"}
     [] kind = "text" -> {}
@@ -58,7 +59,8 @@ Num(tok) == CASE tok = "f1_5" -> 15 [] tok = "npf2_5" -> 25 [] tok = "i3" -> 30 
 
 (* tokens that denote the same value: angular quantities differing only by unit, and pixel      *)
 (* positions within the documented relative tolerance 1e-5 (pAc = pA + 1e-7; pAf = pA + 1e-3)   *)
-SameValue(t1, t2) == t1 = t2 \/ {t1, t2} \in {{"a30", "a30am"}, {"q3am", "q180as"}, {"pA", "pAc"}}
+(* pFarC = pFar + 0.005 at x = 2000 (within rtol 1e-5); pOc = pO + 4e-6 at the origin (outside atol 1e-8) *)
+SameValue(t1, t2) == t1 = t2 \/ {t1, t2} \in {{"a30", "a30am"}, {"q3am", "q180as"}, {"pA", "pAc"}, {"pFar", "pFarC"}}
 
 (* ---------------- classes ---------------- *)
 F(n, k) == <<n, k>>
@@ -107,7 +109,7 @@ BadKeys == {"foo"}
 KeyTokens(which) == IF which = "meta" THEN MetaKeys \cup BadKeys \cup {"color"} ELSE VisualKeys \cup BadKeys \cup {"label", "width"}
 Canon(which, k) == IF which = "visual" /\ k = "width" THEN "linewidth" ELSE k       \* documented alias
 KeyOK(which, k) == Canon(which, k) \in (IF which = "meta" THEN MetaKeys ELSE VisualKeys)
-ValTokens == {"v1", "v2"}
+ValTokens == {"v1", "v2", "vlist"}            \* vlist: a list-valued entry (e.g. tag); vlist2: the same list after an in-place append
 
 (* ---------------- state ---------------- *)
 VARIABLES heap,    \* slot -> [cls, par, meta (dict id), visual (dict id)] or NoObj
@@ -176,20 +178,28 @@ Delete(s) ==
   /\ "delete" \in Acts /\ s \in Live
   /\ \E f \in FieldNames(heap[s].cls) : Reject([a |-> "delete", slot |-> s, field |-> f], "AttributeError")   \* shape parameters only
 
+MetaHows == {"setitem", "update", "update_kw", "update_same", "update_other", "setdefault", "ior", "ior_other", "pop", "del", "clear", "nested_append"}
 (* ---- dict mutation entry points of RegionMeta / RegionVisual ---- *)
 DictOf(s, which) == IF which = "meta" THEN heap[s].meta ELSE heap[s].visual
 MetaOp(s, which, how, k, v) ==
   /\ \/ "meta" \in Acts
-     \/ "meta_small" \in Acts /\ how \in {"setitem", "pop"} /\ k \in {"label", "color"} /\ KeyOK(which, k)
+     \/ "meta_small" \in Acts /\ how \in {"setitem", "pop", "nested_append"} /\ k \in {"label", "color"} /\ KeyOK(which, k) /\ v \in {"v1", "vlist"}
   /\ s \in Live /\ which \in {"meta", "visual"} /\ k \in KeyTokens(which) /\ v \in ValTokens
-  /\ how \in {"setitem", "update", "update_kw", "setdefault", "ior", "pop", "del", "clear"}
+  /\ how \in MetaHows
   /\ (k = "width" => how \in {"setitem", "update", "update_kw", "ior"})      \* the alias is documented for setting only
+  /\ (how = "nested_append" => v = "vlist")
   /\ LET id == DictOf(s, which)
          kv == dicts[id].kv
          ck == Canon(which, k)
          a == [a |-> "meta", slot |-> s, which |-> which, how |-> how, key |-> k, value |-> v]
          set == Step(a, "ok", heap, [dicts EXCEPT ![id].kv = Put(kv, ck, v)])
-     IN CASE how \in {"setitem", "update", "update_kw"} -> IF KeyOK(which, k) THEN set ELSE Reject(a, "KeyError")
+     IN CASE how \in {"setitem", "update", "update_kw", "update_same", "update_other"} ->     \* update_same/other: the argument is a
+                                                                                              \* RegionMeta/RegionVisual instance holding {k: v}
+               IF KeyOK(which, k) THEN set ELSE Reject(a, "KeyError")
+          [] how = "ior_other" -> IF KeyOK(which, k) THEN set ELSE Reject(a, "KeyError")
+          [] how = "nested_append" ->             \* m[k].append(x) on a list-valued entry: only this dict's value changes
+               IF ck \in DOMAIN kv /\ kv[ck] = "vlist" THEN Step(a, "ok", heap, [dicts EXCEPT ![id].kv = Put(kv, ck, "vlist2")])
+               ELSE FALSE
           [] how = "ior" -> IF KeyOK(which, k) THEN set
                             ELSE IF "MetaIorUnchecked" \in Deviations THEN Step(a, "ok", heap, [dicts EXCEPT ![id].kv = Put(kv, k, v)])
                             ELSE Reject(a, "KeyError")
@@ -228,6 +238,17 @@ CopyWith(s, t) ==
           THEN Step(a, "ok", [heap EXCEPT ![t] = [heap[s] EXCEPT !.par = newpar, !.meta = NewDict, !.visual = NewDict + 1]],
                     dicts \o <<dicts[heap[s].meta], dicts[heap[s].visual]>>)
           ELSE Reject(a, "ValueError")
+(* a region of another class with the same parameter names and values (Ellipse/Rectangle and their annuli) *)
+Sibling(cls) == CASE cls = "EllipsePix" -> "RectanglePix" [] cls = "RectanglePix" -> "EllipsePix"
+                  [] cls = "EllipseSky" -> "RectangleSky" [] cls = "RectangleSky" -> "EllipseSky"
+                  [] cls = "EllipseAnnulusPix" -> "RectangleAnnulusPix" [] cls = "RectangleAnnulusPix" -> "EllipseAnnulusPix"
+                  [] cls = "EllipseAnnulusSky" -> "RectangleAnnulusSky" [] cls = "RectangleAnnulusSky" -> "EllipseAnnulusSky"
+                  [] OTHER -> "none"
+CopyAs(s, t) ==
+  /\ "copy" \in Acts /\ s \in Live /\ Sibling(heap[s].cls) # "none" /\ t \in Free /\ t = (CHOOSE x \in Free : \A y \in Free : x <= y)
+  /\ Step([a |-> "copyas", slot |-> s, to |-> t, cls |-> Sibling(heap[s].cls)], "ok",
+          [heap EXCEPT ![t] = [heap[s] EXCEPT !.cls = Sibling(heap[s].cls), !.meta = NewDict, !.visual = NewDict + 1]],
+          dicts \o <<dicts[heap[s].meta], dicts[heap[s].visual]>>)
 Discard(s) == /\ "copy" \in Acts /\ s \in Live /\ s # 1
               /\ Step([a |-> "discard", slot |-> s], "ok", [heap EXCEPT ![s] = NoObj], dicts)
 
@@ -235,11 +256,12 @@ Moves ==
   \/ \E cls \in Classes, s \in Slots : Construct(cls, s)
   \/ \E s \in Slots : Assign(s)
   \/ \E s \in Slots : Delete(s)
-  \/ \E s \in Slots, which \in {"meta", "visual"}, how \in {"setitem", "update", "update_kw", "setdefault", "ior", "pop", "del", "clear"} :
+  \/ \E s \in Slots, which \in {"meta", "visual"}, how \in MetaHows :
         \E k \in KeyTokens(which), v \in ValTokens : MetaOp(s, which, how, k, v)
   \/ \E s \in Slots, which \in {"meta", "visual"}, t \in DictTokens : MetaAssign(s, which, t)
   \/ \E s \in Slots, t \in Slots : Copy(s, t)
   \/ \E s \in Slots, t \in Slots : CopyWith(s, t)
+  \/ \E s \in Slots, t \in Slots : CopyAs(s, t)
   \/ \E s \in Slots : Discard(s)
 Next == /\ depth < MaxDepth
         /\ ~(act.a = "construct" /\ out # "ok")         \* a refused construction ends the history
